@@ -862,108 +862,78 @@ impl FormatString {
         Ok((FormatPart::Literal(result_string), ""))
     }
 
-    fn parse_part_in_brackets(text: &str) -> Result<FormatPart, FormatParseError> {
-        let mut chars = text.chars().peekable();
-
-        let mut left = String::new();
-        let mut right = String::new();
-
-        let mut split = false;
-        let mut selected = &mut left;
-        let mut inside_brackets = false;
-
-        while let Some(char) = chars.next() {
-            if char == '[' {
-                inside_brackets = true;
-
-                selected.push(char);
-
-                while let Some(next_char) = chars.next() {
-                    selected.push(next_char);
-
-                    if next_char == ']' {
-                        inside_brackets = false;
-                        break;
-                    }
-                    if chars.peek().is_none() {
-                        return Err(FormatParseError::MissingRightBracket);
-                    }
-                }
-            } else if char == ':' && !split && !inside_brackets {
-                split = true;
-                selected = &mut right;
-            } else {
-                selected.push(char);
-            }
-        }
-
-        // before the comma is a keyword or arg index, after the comma is maybe a spec.
-        let arg_part: &str = &left;
-
-        let format_spec = if split { right } else { String::new() };
-
-        // left can still be the conversion (!r, !s, !a)
-        let parts: Vec<&str> = arg_part.splitn(2, '!').collect();
-        // before the bang is a keyword or arg index, after the comma is maybe a conversion spec.
-        let arg_part = parts[0];
-
-        let conversion_spec = parts
-            .get(1)
-            .map(|conversion| {
-                // conversions are only every one character
-                conversion
-                    .chars()
-                    .exactly_one()
-                    .map_err(|_| FormatParseError::UnknownConversion)
-            })
-            .transpose()?;
-
-        Ok(FormatPart::Field {
-            field_name: arg_part.to_owned(),
-            conversion_spec,
-            format_spec,
-        })
-    }
-
+    /// Parses one replacement field the way CPython's `parse_field` does, in one pass: the field
+    /// name runs up to the first `}`, `:` or `!` that is not inside `[...]`; then an optional
+    /// conversion (exactly one character, followed by `}` or `:`); then an optional format spec in
+    /// which nested braces are kept verbatim and only counted to find the closing brace.
     fn parse_spec(text: &str) -> Result<(FormatPart, &str), FormatParseError> {
-        let mut nested = false;
-        let mut end_bracket_pos = None;
-        let mut left = String::new();
+        let mut chars = text.chars();
+        if chars.next() != Some('{') {
+            return Err(FormatParseError::MissingStartBracket);
+        }
 
-        // There may be one layer nesting brackets in spec
-        for (idx, c) in text.char_indices() {
-            if idx == 0 {
-                if c != '{' {
-                    return Err(FormatParseError::MissingStartBracket);
-                }
-            } else if c == '{' {
-                if nested {
-                    return Err(FormatParseError::InvalidFormatSpecifier);
+        // field name
+        let name_text = chars.as_str();
+        let mut in_index = false;
+        let mut terminator = loop {
+            let Some(c) = chars.next() else {
+                return Err(if in_index {
+                    FormatParseError::MissingRightBracket
                 } else {
-                    nested = true;
-                    left.push(c);
-                    continue;
-                }
-            } else if c == '}' {
-                if nested {
-                    nested = false;
-                    left.push(c);
-                    continue;
-                } else {
-                    end_bracket_pos = Some(idx);
-                    break;
-                }
+                    FormatParseError::UnmatchedBracket
+                });
+            };
+            if in_index {
+                in_index = c != ']';
             } else {
-                left.push(c);
+                match c {
+                    '{' => return Err(FormatParseError::InvalidFormatSpecifier),
+                    '[' => in_index = true,
+                    '}' | ':' | '!' => break c,
+                    _ => {}
+                }
+            }
+        };
+        let name_len = name_text.len() - chars.as_str().len() - 1;
+        let field_name = name_text[..name_len].to_owned();
+
+        // conversion
+        let mut conversion_spec = None;
+        if terminator == '!' {
+            conversion_spec = Some(chars.next().ok_or(FormatParseError::UnknownConversion)?);
+            terminator = match chars.next() {
+                Some(c @ ('}' | ':')) => c,
+                _ => return Err(FormatParseError::UnknownConversion),
+            };
+        }
+        if terminator == '}' {
+            let part = FormatPart::Field {
+                field_name,
+                conversion_spec,
+                format_spec: String::new(),
+            };
+            return Ok((part, chars.as_str()));
+        }
+
+        // format spec
+        let spec_text = chars.as_str();
+        let mut depth = 0usize;
+        for (idx, c) in spec_text.char_indices() {
+            match c {
+                '{' => depth += 1,
+                '}' if depth == 0 => {
+                    let part = FormatPart::Field {
+                        field_name,
+                        conversion_spec,
+                        format_spec: spec_text[..idx].to_owned(),
+                    };
+                    return Ok((part, &spec_text[idx + 1..]));
+                }
+                '}' => depth -= 1,
+                _ => {}
             }
         }
-        if let Some(pos) = end_bracket_pos {
-            let (_, right) = text.split_at(pos);
-            let format_part = FormatString::parse_part_in_brackets(&left)?;
-            Ok((format_part, &right[1..]))
-        } else {
-            Err(FormatParseError::UnmatchedBracket)
-        }
+        Err(FormatParseError::UnmatchedBracket)
     }
 }
 
